@@ -419,7 +419,8 @@ func streamMain(args []string) {
 		if runErr == nil || time.Since(t0) > 2500*time.Millisecond {
 			rep.Fail(hx.Failure{Kind: "impl-violates-property", Key: "cancel-not-reported", Case: "cancel during sleep", Observed: fmt.Sprint(runErr, time.Since(t0))})
 		} else if !commonerrors.Any(runErr, commonerrors.ErrCancelled, commonerrors.ErrTimeout) {
-			rep.Hist("B:cancel-error-kind-other:" + fmt.Sprintf("%.40s", runErr.Error()))
+			rep.Fail(hx.Failure{Kind: "impl-violates-property", Key: "cancel-error-not-context-kind", Case: "Execute(sleep) with the context cancelled after 150ms",
+				Expected: "an error of kind cancelled/timeout", Observed: runErr.Error()})
 		}
 	}
 	rep.Write(o.Report, drv)
